@@ -520,6 +520,11 @@ class RouteController:
 
     def delete_route_entry(self, route_entry: RouteEntry) -> None:
         """Deletes a route entry from BESS and the neighbor cache."""
+        if self._unresolved_arp_queries_cache.get(route_entry.next_hop_ip) == route_entry:
+            # The route was still waiting for its next hop to resolve: it must not be installed later.
+            del self._unresolved_arp_queries_cache[route_entry.next_hop_ip]
+            return
+
         next_hop = self._neighbor_cache.get(route_entry.next_hop_ip)
 
         if next_hop:
